@@ -2,34 +2,7 @@
 #![allow(dead_code, unused_imports)]
 use super::*;
 
-/// Infallible fixed-capacity sink: records what was written and how many octets.
-struct Sink {
-    buf: [u8; 8],
-    len: usize,
-}
-impl Sink {
-    fn new() -> Self {
-        Sink { buf: [0; 8], len: 0 }
-    }
-}
-impl std::io::Write for Sink {
-    fn write(&mut self, data: &[u8]) -> std::io::Result<usize> {
-        let mut i = 0;
-        while i < data.len() {
-            // an overflow of the sink is a harness error and shows up as a failed bounds check
-            self.buf[self.len] = data[i];
-            self.len += 1;
-            i += 1;
-        }
-        Ok(data.len())
-    }
-    fn write_all(&mut self, data: &[u8]) -> std::io::Result<()> {
-        self.write(data).map(|_| ())
-    }
-    fn flush(&mut self) -> std::io::Result<()> {
-        Ok(())
-    }
-}
+use crate::verif_kani::Sink;
 
 /// K07 (C05): every `KeyFlags` value reachable from `KeyFlags::default()` through the public
 /// setters (each setter applied with a symbolic boolean; 2^9 combinations, resp. 2^10 with the
